@@ -25,6 +25,7 @@ type HarnessDef struct {
 	QuickOnly    bool       `json:"quick_only"`
 	ThoroughOnly bool       `json:"thorough_only"`
 	MaxPaths int            `json:"max_paths"`
+	MaxPreempt int          `json:"max_preempt"`
 }
 
 type PropDef struct {
@@ -127,7 +128,7 @@ func cmdRun(args []string) int {
 		if *tier == "thorough" {
 			e.Timeout = 60000
 		}
-		spec := explore.HarnessSpec{Name: h.Fn, Params: params, Solver: h.Solver, Sched: h.Sched, MaxPaths: h.MaxPaths}
+		spec := explore.HarnessSpec{Name: h.Fn, Params: params, Solver: h.Solver, Sched: h.Sched, MaxPaths: h.MaxPaths, MaxPre: h.MaxPreempt}
 		th := time.Now()
 		st, err := e.Run(spec)
 		if err != nil {
